@@ -545,4 +545,164 @@ theorem copyNumber_spec (st : PState) (s : List Char) (hg : goodNum s = true)
         · exact h
         · rw [hi] at h; exact absurd h (by decide)
 
+/-! ## single lexer steps -/
+
+theorem lexGo_space (f : Nat) (cur : Char) (k : Nat) (r : List Char) :
+    lexGo (f + 1) cur k (' ' :: r) = lexGo f cur k r := by
+  simp [lexGo, isWsp]
+
+theorem lexGo_number (f : Nat) (cur : Char) (k : Nat) (c : Char) (t rest lx : List Char)
+    (hc : NumStart c) (hfp : flagPos cur k = false) (hl : lexNumber (c :: (t ++ rest)) = some (lx, rest)) :
+    lexGo (f + 1) cur k (c :: (t ++ rest)) = (lexGo f cur (k + 1) rest).map (PTok.num lx :: ·) := by
+  obtain ⟨h1, h2, h3, _⟩ := numStart_facts c hc
+  simp only [lexGo, h1, h2, Bool.or_self, Bool.false_eq_true, if_false, h3, Option.isSome_none, hfp, hl]
+
+theorem lexGo_flagchar (f : Nat) (cur : Char) (k : Nat) (b : Bool) (rest : List Char) (hfp : flagPos cur k = true) :
+    lexGo (f + 1) cur k ((if b then '1' else '0') :: rest) = (lexGo f cur (k + 1) rest).map (PTok.flag b :: ·) := by
+  cases b
+  · have : kindOf '0' = none := by decide
+    simp [lexGo, isWsp, this, hfp]
+  · have : kindOf '1' = none := by decide
+    simp [lexGo, isWsp, this, hfp]
+
+/-- a number item is read back as one number token -/
+theorem lex_number_item (st : PState) (s rest : List Char) (cur : Char) (k f : Nat)
+    (hg : goodNum s = true) (hinv : st.prevDigit = true → st.prevFlag = false) (hfp : flagPos cur k = false)
+    (hrest : Stop (copyNumber st s).1.prevDigitIsInt rest)
+    (hf : ((copyNumber st s).2 ++ rest).length < f) :
+    ∃ f', rest.length < f' ∧
+      lexGo f cur k ((copyNumber st s).2 ++ rest) =
+        (lexGo f' cur (k + 1) rest).map (PTok.num (numLexeme st s) :: ·) := by
+  obtain ⟨pv, sep, hwf, hsep, hout, hlx, _, hint, _, _, _⟩ := copyNumber_spec st s hg hinv
+  obtain ⟨t, hrt, hns⟩ := render_headD pv hwf
+  have hl : lexNumber (headOf pv :: (t ++ rest)) = some (pv.render, rest) := by
+    have := lexNumber_render pv rest hwf (by rw [← hint]; exact hrest)
+    rw [hrt] at this ⊢
+    simpa using this
+  rw [hout] at hf ⊢
+  rw [hlx]
+  rcases hsep with rfl | rfl
+  · simp only [List.nil_append, hrt, List.cons_append, List.length_cons, List.length_append] at hf ⊢
+    obtain ⟨f0, rfl⟩ : ∃ f0, f = f0 + 1 := ⟨f - 1, by omega⟩
+    refine ⟨f0, by omega, ?_⟩
+    rw [lexGo_number f0 cur k (headOf pv) t rest _ hns hfp hl, hrt]
+  · simp only [hrt, List.cons_append, List.nil_append, List.length_cons, List.length_append] at hf ⊢
+    obtain ⟨f0, rfl⟩ : ∃ f0, f = f0 + 2 := ⟨f - 2, by omega⟩
+    refine ⟨f0, by omega, ?_⟩
+    rw [lexGo_space, lexGo_number f0 cur k (headOf pv) t rest _ hns hfp hl, hrt]
+
+/-- a flag item is read back as one flag token, whatever follows -/
+theorem lex_flag_item (st : PState) (b : Bool) (rest : List Char) (cur : Char) (k f : Nat)
+    (hfp : flagPos cur k = true) (hf : ((copyFlag st b).2 ++ rest).length < f) :
+    ∃ f', rest.length < f' ∧
+      lexGo f cur k ((copyFlag st b).2 ++ rest) = (lexGo f' cur (k + 1) rest).map (PTok.flag b :: ·) := by
+  unfold copyFlag at hf ⊢
+  cases hp : st.prevFlag with
+  | true =>
+    simp only [hp, if_true, List.cons_append, List.nil_append, List.length_cons] at hf ⊢
+    obtain ⟨f0, rfl⟩ : ∃ f0, f = f0 + 1 := ⟨f - 1, by omega⟩
+    exact ⟨f0, by omega, lexGo_flagchar f0 cur k b rest hfp⟩
+  | false =>
+    simp only [hp, Bool.false_eq_true, if_false, List.cons_append, List.nil_append, List.length_cons] at hf ⊢
+    obtain ⟨f0, rfl⟩ : ∃ f0, f = f0 + 2 := ⟨f - 2, by omega⟩
+    refine ⟨f0, by omega, ?_⟩
+    rw [lexGo_space, lexGo_flagchar f0 cur k b rest hfp]
+
+/-! ## item lists -/
+
+def itemTok (st : PState) : PItem → PTok
+  | .num s => .num (numLexeme st s)
+  | .flag b => .flag b
+
+/-- the tokens an item list is printed as (with the `.0` / `e2` spellings the printer chooses) -/
+def itemsToks : PState → List PItem → List PTok
+  | _, [] => []
+  | st, it :: r => itemTok st it :: itemsToks (emitItem st it).1 r
+
+/-- flags sit exactly at the arc-flag positions of the lexer's context -/
+def posOk (cur : Char) : Nat → List PItem → Bool
+  | _, [] => true
+  | k, .num _ :: r => !flagPos cur k && posOk cur (k + 1) r
+  | k, .flag _ :: r => flagPos cur k && posOk cur (k + 1) r
+
+def GoodItems (items : List PItem) : Prop := ∀ s, PItem.num s ∈ items → goodNum s = true
+
+def PInv (st : PState) : Prop := st.prevDigit = true → st.prevFlag = false
+
+def StopAfter (st : PState) (rest : List Char) : Prop := st.prevDigit = true → Stop st.prevDigitIsInt rest
+
+theorem emitItem_inv (st : PState) (it : PItem) (hg : ∀ s, it = .num s → goodNum s = true) (hinv : PInv st) :
+    PInv (emitItem st it).1 := by
+  cases it with
+  | num s =>
+    obtain ⟨_, _, _, _, _, _, _, _, hpf, _, _⟩ := copyNumber_spec st s (hg s rfl) hinv
+    intro _; exact hpf
+  | flag b => intro h; simp [emitItem, copyFlag] at h
+
+theorem stopAfter_emitItem (st : PState) (it : PItem) (rest : List Char)
+    (hg : ∀ s, it = .num s → goodNum s = true) (hinv : PInv st) :
+    StopAfter st ((emitItem st it).2 ++ rest) := by
+  intro hpd
+  cases it with
+  | num s =>
+    obtain ⟨_, _, _, _, _, _, _, _, _, _, hst⟩ := copyNumber_spec st s (hg s rfl) hinv
+    exact hst hpd rest
+  | flag b =>
+    intro c r h
+    simp only [emitItem, copyFlag, hinv hpd, Bool.false_eq_true, if_false, List.cons_append, List.cons.injEq] at h
+    rw [← h.1]; exact ⟨by decide, by decide, by simp⟩
+
+theorem emitItems_cons (st : PState) (it : PItem) (r : List PItem) :
+    emitItems st (it :: r) = ((emitItems (emitItem st it).1 r).1, (emitItem st it).2 ++ (emitItems (emitItem st it).1 r).2) := rfl
+
+theorem lex_items : ∀ (items : List PItem) (st : PState) (cur : Char) (k : Nat) (rest : List Char) (f : Nat),
+    GoodItems items → posOk cur k items = true → PInv st →
+    StopAfter (emitItems st items).1 rest → ((emitItems st items).2 ++ rest).length < f →
+    ∃ f', rest.length < f' ∧
+      lexGo f cur k ((emitItems st items).2 ++ rest) =
+        (lexGo f' cur (k + items.length) rest).map (itemsToks st items ++ ·) := by
+  intro items
+  induction items with
+  | nil =>
+    intro st cur k rest f _ _ _ _ hf
+    refine ⟨f, by simpa [emitItems] using hf, ?_⟩
+    simp [emitItems, itemsToks]
+  | cons it r ih =>
+    intro st cur k rest f hg hpos hinv hstop hf
+    rw [emitItems_cons] at hstop hf ⊢
+    simp only [List.append_assoc] at hf ⊢
+    have hg1 : ∀ s, it = .num s → goodNum s = true := fun s e => hg s (by rw [e]; simp)
+    have hgr : GoodItems r := fun s hs => hg s (by simp [hs])
+    have hinv' := emitItem_inv st it hg1 hinv
+    -- what follows the first item cannot extend it
+    have hnext : StopAfter (emitItem st it).1 ((emitItems (emitItem st it).1 r).2 ++ rest) := by
+      cases r with
+      | nil => simpa [emitItems] using hstop
+      | cons it2 r2 =>
+        rw [emitItems_cons]
+        simp only [List.append_assoc]
+        exact stopAfter_emitItem _ it2 _ (fun s e => hg s (by rw [e]; simp)) hinv'
+    cases it with
+    | num s =>
+      simp only [posOk, Bool.and_eq_true, Bool.not_eq_true'] at hpos
+      obtain ⟨_, _, _, _, _, _, hpd, _, _, _, _⟩ := copyNumber_spec st s (hg1 s rfl) hinv
+      obtain ⟨f1, hf1, h1⟩ := lex_number_item st s _ cur k f (hg1 s rfl) hinv hpos.1 (hnext hpd) hf
+      obtain ⟨f2, hf2, h2⟩ := ih (emitItem st (.num s)).1 cur (k + 1) rest f1 hgr hpos.2 hinv' hstop hf1
+      refine ⟨f2, hf2, ?_⟩
+      simp only [emitItem] at h1 h2 ⊢
+      rw [h1, h2, Option.map_map]
+      simp only [itemsToks, itemTok, emitItem, List.length_cons, List.cons_append]
+      have : k + 1 + r.length = k + (r.length + 1) := by omega
+      rw [this]; rfl
+    | flag b =>
+      simp only [posOk, Bool.and_eq_true] at hpos
+      obtain ⟨f1, hf1, h1⟩ := lex_flag_item st b _ cur k f hpos.1 hf
+      obtain ⟨f2, hf2, h2⟩ := ih (emitItem st (.flag b)).1 cur (k + 1) rest f1 hgr hpos.2 hinv' hstop hf1
+      refine ⟨f2, hf2, ?_⟩
+      simp only [emitItem] at h1 h2 ⊢
+      rw [h1, h2, Option.map_map]
+      simp only [itemsToks, itemTok, emitItem, List.length_cons, List.cons_append]
+      have : k + 1 + r.length = k + (r.length + 1) := by omega
+      rw [this]; rfl
+
 end Verif.Proofs.SvgLex
